@@ -490,9 +490,7 @@ inductive Op (α κ : Type) where
   | lookup (w : Lk) (k : α)
   | hlookup (w : Lk) (k : κ)
   | riter
-  | eraseIf (p : α → Bool)      -- `etl::erase_if(cur, pred)`
-  | cmp                         -- `cur == other`, `!=`, `<`, `<=`, `>`, `>=`
-  | sizes                       -- `size()`, `empty()`, `full()` (static_set), `max_size()`
+  deriving Repr
 
 /-- observable result of one operation -/
 inductive Out (α : Type) where
@@ -502,8 +500,6 @@ inductive Out (α : Type) where
   | flag (b : Bool)
   | pair (a b : Nat)
   | elems (l : List α)
-  | bools (bs : List Bool)
-  | sizes (size : Nat) (empty : Bool) (full : Option Bool) (maxSize : Nat)
   deriving Repr, DecidableEq
 
 structure St (α : Type) where
@@ -537,54 +533,7 @@ def setEraseKey (kind : Kind) (lt : α → α → Bool) (l : List α) (k : α) :
       let (l', _) ← miniErase l it (it + 1)
       .ok (l', 1)
 
-/-! ### erase_if, relational operators, size observers -/
-
-/-- `erase_if(set, pred)` — `static_set` (added by the `fix:` of F-C09-ss-erase-if-missing) and `flat_set`, the same statements:
-    `it = etl::remove_if(c.begin(), c.end(), pred)` (the C06 model of `_algorithm/remove_if.hpp`);
-    `r = distance(it, c.end())`; `c.erase(it, c.end())` (the container's range erase); `return r` -/
-def setEraseIf (kind : Kind) (p : α → Bool) (l : List α) : Except Err (List α × Nat) := do
-  let (a, it) ← Tetl.C06.removeIf p l 0 l.length
-  let r := a.length - it
-  let (l', _) ← (match kind with
-    | .fi => miniErase a it a.length
-    | _ => svErase a it a.length)
-  .ok (l', r)
-
-/-- `operator==` and `operator<` of the ELEMENT type: what `etl::equal` / `etl::lexicographical_compare` called without a
-    comparator use.  They are unrelated to the comparator of the set ("this comparison ignores the set's ordering"). -/
-structure Elem (α : Type) where
-  eq : α → α → Bool
-  lt : α → α → Bool
-
-/-- `operator==`.  static_set: `lhs.size() == rhs.size() && equal(begin(lhs), end(lhs), begin(rhs))` (3-iterator `etl::equal`);
-    flat_set: `etl::equal(lhs.begin(), lhs.end(), rhs.begin(), rhs.end())` (4-iterator, random-access branch: the two
-    distances are compared first).  Both through the C06 models of `_algorithm/equal.hpp`. -/
-def setEq (kind : Kind) (e : Elem α) (a b : List α) : Except Err Bool :=
-  match kind with
-  | .ss => if a.length == b.length then Tetl.C06.equal3 e.eq a 0 a.length b 0 b.length else .ok false
-  | _ => Tetl.C06.equal4RA e.eq a 0 a.length b 0 b.length
-
-/-- `operator<` = `etl::lexicographical_compare(begin(lhs), end(lhs), begin(rhs), end(rhs))` (C06 model) -/
-def setLt (e : Elem α) (a b : List α) : Except Err Bool :=
-  Tetl.C06.lexicographicalCompare e.lt a 0 a.length b 0 b.length
-
-/-- the six operators as the code derives them, each evaluated on its own: `==`; `!=` = `!(lhs == rhs)` (static_set: written
-    out; flat_set: rewritten from `==` by the language); `<`; `<=` = `!(rhs < lhs)`; `>` = `rhs < lhs`; `>=` = `!(lhs < rhs)` -/
-def relOps (kind : Kind) (e : Elem α) (a b : List α) : Except Err (List Bool) := do
-  let eq ← setEq kind e a b
-  let ne ← setEq kind e a b
-  let lt ← setLt e a b
-  let le ← setLt e b a
-  let gt ← setLt e b a
-  let ge ← setLt e a b
-  .ok [eq, !ne, lt, !le, gt, !ge]
-
-/-- `size()` = container `size()`; `empty()` = container `empty()` = `size() == 0`; `full()` (static_set only) =
-    `static_vector::full()` = `size() == Capacity`; `max_size()` = container `max_size()` = `Capacity` -/
-def setSizes (kind : Kind) (cap : Nat) (l : List α) : Out α :=
-  .sizes l.length (l.length == 0) (match kind with | .ss => some (l.length == cap) | _ => none) cap
-
-def step (kind : Kind) (lt : α → α → Bool) (h : Het α κ) (e : Elem α) (cap : Nat) (s : St α) :
+def step (kind : Kind) (lt : α → α → Bool) (h : Het α κ) (cap : Nat) (s : St α) :
     Op α κ → Except Err (St α × Out α)
   | .insert k => do
     let (l, r) ← setEmplace kind lt cap s.cur k
@@ -635,20 +584,101 @@ def step (kind : Kind) (lt : α → α → Bool) (h : Het α κ) (e : Elem α) (
     let o ← lookupP (fun x => h.ek x k) (fun x => h.ke k x) s.cur w
     .ok (s, o)
   | .riter => do .ok (s, .elems (← riter s.cur))
-  | .eraseIf p => do
-    let (l, n) ← setEraseIf kind p s.cur
-    .ok ({ s with cur := l }, .num n)
-  | .cmp => do .ok (s, .bools (← relOps kind e s.cur s.other))
-  | .sizes => .ok (s, setSizes kind cap s.cur)
 
 /-- a whole history: the outputs in order and the final state -/
-def run (kind : Kind) (lt : α → α → Bool) (h : Het α κ) (e : Elem α) (cap : Nat) :
+def run (kind : Kind) (lt : α → α → Bool) (h : Het α κ) (cap : Nat) :
     St α → List (Op α κ) → Except Err (St α × List (Out α))
   | s, [] => .ok (s, [])
   | s, op :: ops => do
-    let (s1, o) ← step kind lt h e cap s op
-    let (s2, os) ← run kind lt h e cap s1 ops
+    let (s1, o) ← step kind lt h cap s op
+    let (s2, os) ← run kind lt h cap s1 ops
     .ok (s2, o :: os)
+
+/-! ### erase_if, relational operators, size observers — and histories extended by them
+
+The operations and results of `Op` / `Out` / `step` / `run` above are kept as they are (property C02 consumes them); the three
+additions are a layer on top: `XOp` = an `Op` or one of `erase_if(pred)` / the six relational operators against the other live
+set / the size observers; `xstep` / `xrun` run histories in which all of them are interleaved. -/
+
+inductive XOp (α κ : Type) where
+  | base (op : Op α κ)
+  | eraseIf (p : α → Bool)      -- `etl::erase_if(cur, pred)`; result `.base (.num erased)`
+  | cmp                         -- `cur == other`, `!=`, `<`, `<=`, `>`, `>=`
+  | sizes                       -- `size()`, `empty()`, `full()` (static_set), `max_size()`
+
+inductive XOut (α : Type) where
+  | base (o : Out α)
+  | bools (bs : List Bool)
+  | sizes (size : Nat) (empty : Bool) (full : Option Bool) (maxSize : Nat)
+  deriving Repr, DecidableEq
+
+/-- `erase_if(set, pred)` — `static_set` (added by the `fix:` of F-C09-ss-erase-if-missing) and `flat_set`, the same statements:
+    `it = etl::remove_if(c.begin(), c.end(), pred)` (the C06 model of `_algorithm/remove_if.hpp`);
+    `r = distance(it, c.end())`; `c.erase(it, c.end())` (the container's range erase); `return r` -/
+def setEraseIf (kind : Kind) (p : α → Bool) (l : List α) : Except Err (List α × Nat) := do
+  let (a, it) ← Tetl.C06.removeIf p l 0 l.length
+  let r := a.length - it
+  let (l', _) ← (match kind with
+    | .fi => miniErase a it a.length
+    | _ => svErase a it a.length)
+  .ok (l', r)
+
+/-- `operator==` and `operator<` of the ELEMENT type: what `etl::equal` / `etl::lexicographical_compare` called without a
+    comparator use.  They are unrelated to the comparator of the set ("this comparison ignores the set's ordering"). -/
+structure Elem (α : Type) where
+  eq : α → α → Bool
+  lt : α → α → Bool
+
+/-- `operator==`.  static_set: `lhs.size() == rhs.size() && equal(begin(lhs), end(lhs), begin(rhs))` (3-iterator `etl::equal`);
+    flat_set: `etl::equal(lhs.begin(), lhs.end(), rhs.begin(), rhs.end())` (4-iterator, random-access branch: the two
+    distances are compared first).  Both through the C06 models of `_algorithm/equal.hpp`. -/
+def setEq (kind : Kind) (e : Elem α) (a b : List α) : Except Err Bool :=
+  match kind with
+  | .ss => if a.length == b.length then Tetl.C06.equal3 e.eq a 0 a.length b 0 b.length else .ok false
+  | _ => Tetl.C06.equal4RA e.eq a 0 a.length b 0 b.length
+
+/-- `operator<` = `etl::lexicographical_compare(begin(lhs), end(lhs), begin(rhs), end(rhs))` (C06 model) -/
+def setLt (e : Elem α) (a b : List α) : Except Err Bool :=
+  Tetl.C06.lexicographicalCompare e.lt a 0 a.length b 0 b.length
+
+/-- the six operators as the code derives them, each evaluated on its own: `==`; `!=` = `!(lhs == rhs)` (static_set: written
+    out; flat_set: rewritten from `==` by the language); `<`; `<=` = `!(rhs < lhs)`; `>` = `rhs < lhs`; `>=` = `!(lhs < rhs)` -/
+def relOps (kind : Kind) (e : Elem α) (a b : List α) : Except Err (List Bool) := do
+  let eq ← setEq kind e a b
+  let ne ← setEq kind e a b
+  let lt ← setLt e a b
+  let le ← setLt e b a
+  let gt ← setLt e b a
+  let ge ← setLt e a b
+  .ok [eq, !ne, lt, !le, gt, !ge]
+
+/-- `size()` = container `size()`; `empty()` = container `empty()` = `size() == 0`; `full()` (static_set only) =
+    `static_vector::full()` = `size() == Capacity`; `max_size()` = container `max_size()` = `Capacity` -/
+def setSizes (kind : Kind) (cap : Nat) (l : List α) : XOut α :=
+  .sizes l.length (l.length == 0) (match kind with | .ss => some (l.length == cap) | _ => none) cap
+
+/-- one step of an extended history: an operation of `Op` (through `step`), or one of the three additions -/
+def xstep (kind : Kind) (lt : α → α → Bool) (h : Het α κ) (e : Elem α) (cap : Nat) (s : St α) :
+    XOp α κ → Except Err (St α × XOut α)
+  | .base op => do
+    let (s', o) ← step kind lt h cap s op
+    .ok (s', .base o)
+  | .eraseIf p => do
+    let (l, n) ← setEraseIf kind p s.cur
+    .ok ({ s with cur := l }, .base (.num n))
+  | .cmp => do .ok (s, .bools (← relOps kind e s.cur s.other))
+  | .sizes => .ok (s, setSizes kind cap s.cur)
+
+/-- a whole extended history: the outputs in order and the final state -/
+def xrun (kind : Kind) (lt : α → α → Bool) (h : Het α κ) (e : Elem α) (cap : Nat) :
+    St α → List (XOp α κ) → Except Err (St α × List (XOut α))
+  | s, [] => .ok (s, [])
+  | s, op :: ops => do
+    let (s1, o) ← xstep kind lt h e cap s op
+    let (s2, os) ← xrun kind lt h e cap s1 ops
+    .ok (s2, o :: os)
+
+
 
 /-! ### flat_set / flat_multiset over `etl::inplace_vector` (elements `Nat`: the C01 model of inplace_vector, Tetl/C01/Model.lean)
 
